@@ -413,6 +413,16 @@ func c01NullGuard(c *Ctx, a *avlAnchors) {
 						return true
 					}
 				case "loopvar":
+					// tested on this very path, before the use (for cur != nil && ... { })
+					for i, cd := range p.Conds {
+						if i >= ncond {
+							break
+						}
+						r := cd.Rel()
+						if r.B != nil && r.Op == "!=" && ((r.B.IsNil() && r.A.Key() == x.Key()) || (r.A.IsNil() && r.B.Key() == x.Key())) {
+							return true
+						}
+					}
 					for _, li := range loops {
 						for phi, lv := range li.LV {
 							if lv.Key() != x.Key() {
@@ -617,7 +627,19 @@ func c01Contains(c *Ctx, a *avlAnchors) {
 					}
 				}
 				ret := p.Rets[0]
+				curNil := false
+				for _, cd := range p.Conds {
+					r := cd.Rel()
+					if r.B != nil && r.Op == "==" && ((r.A.Key() == cur.Key() && r.B.IsNil()) || (r.B.Key() == cur.Key() && r.A.IsNil())) {
+						curNil = true
+					}
+				}
 				switch {
+				case ret.Key() == cur.Key() && curNil:
+					// "stepped off the tree": the current node is nil and is returned as the not-found answer. That the step
+					// which got here went to the side the value belongs on is descent-agreement's business (every descent
+					// follows the comparator, or goes to the only child there is).
+					gives++
 				case ret.Key() == cur.Key():
 					hits++
 					if eq != "==" {
